@@ -28,7 +28,9 @@ Blob(im) == [q \in 1..DataLen(im) |-> Sample(im, q - 1)]
 \* FlatePNG / FlateTIFF / LZWPNG / LZWTIFF: the two filters that take DecodeParms, with a PNG (10..15) or TIFF (2) predictor
 PredictorFilters == {"FlatePNG", "FlateTIFF", "LZWPNG", "LZWTIFF"}
 FlateFamily == {"Flate", "FlatePNG", "FlateTIFF"}
-Lossless == {"Flate", "LZW", "A85", "AHx", "RL"} \cup PredictorFilters
+\* LZWE0 / LZWE1: LZWDecode with /EarlyChange 0 / 1 written out (plain LZW: absent, i.e. 1)
+LZWFamily == {"LZW", "LZWE0", "LZWE1", "LZWPNG", "LZWTIFF"}
+Lossless == {"Flate", "LZW", "LZWE0", "LZWE1", "A85", "AHx", "RL"} \cup PredictorFilters
 LastFilter(im) == IF im.filters = <<>> THEN "none" ELSE im.filters[Len(im.filters)]
 HasJBIG2(im) == \E q \in 1..Len(im.filters) : im.filters[q] = "JBIG2"
 Decide(im, dv) ==
